@@ -14,7 +14,7 @@ ASSUMPTIONS = ["trace oracles in pbt/simtrace.py (soundness rules DESIGN.md par.
 
 
 def strategy(tier):
-    return simprop.strategy_for(PROFILES)
+    return simprop.strategy_for(PROFILES, tier)
 
 
 def serialize(case):
